@@ -1,7 +1,7 @@
 import UF.Model.NewRule
 import UF.Spec.Match
 import UF.Proofs.MergeSorted
-namespace UF
+namespace UF.E
 open Bytes
 
 /-! ### the scan -/
@@ -351,4 +351,4 @@ theorem newRule_text {rx : RuleExt} {line : Bytes} {id : Int} {r : Rule}
           cases pure_ok_elim h
           exact parseNetRule_text hn
 
-end UF
+end UF.E
